@@ -473,17 +473,5 @@ func round(context Context, args ...Result) (Result, error) {
 }
 
 func getRound(n float64) float64 {
-	if math.IsNaN(float64(n)) || math.IsInf(float64(n), 0) {
-		return n
-	}
-
-	if n < -0.5 {
-		n = float64(int(n - 0.5))
-	} else if n > 0.5 {
-		n = float64(int(n + 0.5))
-	} else {
-		n = 0
-	}
-
-	return n
+	return math.Round(n)
 }
